@@ -182,7 +182,7 @@ def run(ctx):
     ctx.notes["loader_class"] = "%s.%s" % (loader_cls.__module__, loader_cls.__qualname__)
     ctx.notes["loader_mro"] = [c.__name__ for c in loader_cls.__mro__]
     if changed:
-        ctx.lean_status = lean.prepare(ctx.pid)
+        ctx.lean_status = lean.prepare(ctx.pid, thorough=not ctx.quick)
     ctx.count("table-regeneration", {"loader": ctx.notes["loader_class"], "entries": len(loader_cls.yaml_constructors)}, True)
     ctx.count("table-regeneration", {"multi": len(loader_cls.yaml_multi_constructors)}, True)
     # (b) documents
